@@ -24,6 +24,7 @@ and starts with a non-reserved block type; distinct = hash of the input bytes.",
     replay,
     exh: Some(exh),
     totality: true,
+    aggregate: None,
 };
 
 fn check_bytes(data: &[u8], ctx: &mut Ctx, labels: &[String]) -> Result<(), Failure> {
